@@ -105,6 +105,20 @@ var pairs = []pair{
 		probe: probe{"ingress", post("/a", "", "x")},
 	},
 	{
+		// the route moves to the internal channel (pull only, never served by ingress): resolving the path under one
+		// configuration and looking up its authentication under the other would store an unauthenticated request
+		name:  "P10-inbound-basic-to-internal-same-path",
+		old:   head + `/x { auth basic "u" "p"  pull { path /ex } }`,
+		new:   head + `internal /x { pull { path /ex } }`,
+		probe: probe{"ingress", post("/x", "", "x")}, // 401 under old, 404 under new
+	},
+	{
+		name:  "P11-internal-to-inbound-basic-same-path",
+		old:   head + `internal /x { pull { path /ex } }`,
+		new:   head + `/x { auth basic "u" "p"  pull { path /ex } }`,
+		probe: probe{"ingress", post("/x", "", "x")},
+	},
+	{
 		name:  "P5-basic-to-hmac-same-route",
 		old:   head + `/a { auth basic "u" "p"  pull { path /ea } }`,
 		new:   head + `/a { auth hmac "raw:k"  pull { path /ea } }`,
